@@ -23,7 +23,7 @@ from . import valemodel as VM
 VALS = {
     '1': 1, '0': 0, '2': 2, '3': 3, '-1': -1, 'True': True, 'False': False, "'a'": 'a', "'b'": 'b', "''": '', "'ab'": 'ab',
     '1.5': 1.5, '0.0': 0.0, '1.0': 1.0, 'None': None, "b'x'": b'x', "b''": b'', '1j': 1j, 'E.A': U.E.A, 'E.B': U.E.B,
-    'IE.X': U.IE.X, 'IE.Y': U.IE.Y, '...': ...,
+    'IE.X': U.IE.X, 'IE.Y': U.IE.Y, '...': ..., 'NEQ': U.NEQ, 'NAN': U.NAN,
 }
 NEW = {'DupA': U.DupA, 'DupB': U.DupB, 'K': U.K, 'K2': U.K2, 'Other': U.Other, 'PImpl': U.PImpl, 'G': U.G, 'object': object}
 CLS = {'int': int, 'bool': bool, 'str': str, 'float': float, 'bytes': bytes, 'K': U.K, 'K2': U.K2, 'Other': U.Other,
